@@ -43,6 +43,24 @@ def udp_port_bound(port):
         return True
 
 
+_me_lock = threading.Lock()
+_me_counter = [0]
+
+
+def node_port():
+    """the UDP port of the node under test.  Not an OS-assigned one: between the moment such a port is
+    released for the orchestrator and the moment the orchestrator binds it, the OS may hand it to a peer
+    socket of a scenario running in parallel (datagrams then cross between scenarios).  Ports below the
+    ephemeral range, one slot per process and scenario."""
+    for _ in range(200):
+        with _me_lock:
+            _me_counter[0] += 1
+            port = 20000 + (os.getpid() % 100) * 100 + (_me_counter[0] % 100)
+        if not udp_port_bound(port):
+            return port
+    raise vlib.ToolError("no free UDP port for the node under test")
+
+
 def free_tcp_port():
     s = socket.socket(socket.AF_INET, socket.SOCK_STREAM)
     s.bind(("127.0.0.1", 0))
@@ -84,9 +102,7 @@ class Run:
         self.stop_reader = False
         self.peer_socks = {p: free_udp() for p in cfg["peers"]}
         self.foreign_sock = free_udp()
-        me_sock = free_udp()
-        self.me_port = me_sock.getsockname()[1]
-        me_sock.close()
+        self.me_port = node_port()
         self.sync = {p: 20000 + i for i, p in enumerate([cfg["me"]] + cfg["peers"])}
         self.sync_rev = {"127.0.0.1:%d" % v: k for k, v in self.sync.items()}
         self.dir = os.path.join(d, "orch_" + tag)
@@ -111,7 +127,7 @@ class Run:
         self.proc = subprocess.Popen(
             [os.path.join(vlib.HARNESS, "target", "debug", "wborch"), cfg["me"], "--config-path", cpath,
              "--heartbeat", str(HEARTBEAT_MS), "--timeout", str(TIMEOUT_MS), "--worterbuch-executable", stub,
-             "--stats-port", str(free_tcp_port()), "--data-dir", os.path.join(self.dir, "data"), "--config-scan-interval", "3600"],
+             "--stats-port", str(10000 + (self.me_port - 20000)), "--data-dir", os.path.join(self.dir, "data"), "--config-scan-interval", "3600"],
             cwd=self.dir, env=env, stdout=self.errlog, stderr=self.errlog, start_new_session=True)
         self.stub_pos = 0
         self.reader = threading.Thread(target=self.read_loop, daemon=True)
